@@ -371,10 +371,18 @@ namespace chaiscript {
           Boxed_Value retval;
 
           if (m_used_files.count(appendedpath) == 0) {
-            l2.unlock();
-            retval = eval_file(appendedpath);
-            l2.lock();
+            // record the file before evaluating it: a file that uses itself, directly or through
+            // other files, must find itself already used instead of recursing without end
             m_used_files.insert(appendedpath);
+            l2.unlock();
+            try {
+              retval = eval_file(appendedpath);
+            } catch (...) {
+              // not loaded after all: a later use() may try again
+              l2.lock();
+              m_used_files.erase(appendedpath);
+              throw;
+            }
           }
 
           return retval; // return, we loaded it, or it was already loaded
